@@ -188,11 +188,12 @@ class Gen:
         if k == 15:
             # destructuring, possibly with ?//
             a, b = "$p%d" % len(self.vars), "$q%d" % len(self.vars)
-            pats = [self.pick("[%s]" % a, "[%s, %s]" % (a, b), "{a: %s}" % a, "{%s}" % "$a", "{a: [%s]}" % a, "{a: %s, b: %s}" % (a, b), a)]
+            pats = [self.pick("[%s]" % a, "[%s, %s]" % (a, b), "{a: %s}" % a, "{%s}" % "$a", "{a: [%s]}" % a, "{a: %s, b: %s}" % (a, b), a,
+                              "{$a, b: [%s]}" % a, "{$a: [%s]}" % b, "[%s, [%s]]" % (a, b), "{$a, $b}".replace("$b", b) if False else "{$a, b: %s}" % b)]
             names = {a, b, "$a"}
             for _ in range(self.pick(0, 0, 1, 2)):
                 pats.append(self.pick("[%s]" % b, "{b: %s}" % b, b, "{a: %s}" % a, "[%s, %s]" % (b, a), a))
-            src = e()
+            src = e() if r.randrange(3) else self.pick("(.[]?, .)", "([1,[2]], {a:3,b:[4]}, {b:5}, 6)", "(.., 1)", "({a:1,b:2}, [3], {b:[7]})")
             used = [n for n in (a, b, "$a") if any(n in p for p in pats)]
             self.vars.extend(used)
             body = e()
